@@ -957,6 +957,21 @@ CLAIMS["C18"]["note"] += (
     "of the derived code: not JSON / generated code rejected in the typer). stripComments covers the token kinds an attribute is made of in the "
     "generated and catalogue inputs (punctuation, identifiers, \"...\" literals, whitespace, // comments), not multi-line strings or char literals.")
 
+# ---- round 11 (fu-r11-c14): every rejecting decision of both pipelines' entry points is exercised and compared (additive)
+CLAIMS["C14"]["text"] += (
+    " Round 11 (searched, not proved): check_package and build_package are compared on EVERY package of every order of every project, accepted or "
+    "rejected as a whole - both accept: same interface bytes; both reject: same stage and the same diagnostics (sorted message classes); check "
+    "accepts while build rejects only when every diagnostic of build is one of match compilation, the one stage check does not run (the shapes are "
+    "read off compile_match.rs on every run). Two more deterministic catalogues under the acceptance oracle: diagnostics of the stage after the typer "
+    "(integer-literal match without catch-all on every integer type, nested in variant payloads / tuples / struct patterns, inside closures, methods, "
+    "generic functions; inherent methods used as values; the matched value or the method owned by an imported package; 25 rejecting forms + 3 controls "
+    "x entry file / sibling / library / library sibling = 112 projects) and the entry point (main in the entry file / a sibling file / only a library / "
+    "only as a method / only as an extern / nowhere; main with a parameter, a result, a type parameter; 12 projects).")
+CLAIMS["C14"]["note"] = CLAIMS["C14"]["note"].replace(
+    "No defect found on the tree.",
+    "Defects found and fixed in the repository copy: see known_findings.json (C14, status fixed) - the latest (round 11, fece0bd): whole-program "
+    "compilation accepted a Main package without a main function and emitted func main() { main0() } with no main0, while link rejects it.")
+
 def main():
     checks = []
     for pid in ALL:
